@@ -188,6 +188,60 @@ def reduce_bulk_check(ctx, c, outs):
     return None
 
 
+REGION_SCRIPT = r"""
+import json, sys, warnings
+import numpy as np
+warnings.simplefilter("ignore")
+from orix.quaternion import OrientationRegion
+from orix.quaternion import symmetry as S
+pairs = json.loads(sys.argv[1])
+out = {}
+for kl, kr in pairs:
+    try:
+        out[f"{kl},{kr}"] = OrientationRegion.from_symmetry(S._groups[kl], S._groups[kr]).data.reshape(-1, 4).tolist()
+    except NotImplementedError:
+        out[f"{kl},{kr}"] = None
+print(json.dumps(out))
+"""
+
+
+def region_order_check(ctx, c, outs):
+    """the orientation region of a pair of symmetries does not depend on which regions were built before in the same
+    process: regions built now (late in this run, after hundreds of other pairs) equal those a fresh interpreter builds
+    for the same pairs in reverse order"""
+    import json as _json
+    import subprocess
+    import sys
+    from orix.quaternion import OrientationRegion
+    gs = groups()
+    here = {}
+    with warnings.catch_warnings():
+        warnings.simplefilter("ignore")
+        for kl, kr in c["pairs"]:
+            try:
+                here[(kl, kr)] = OrientationRegion.from_symmetry(gs[kl], gs[kr]).data.reshape(-1, 4)
+            except NotImplementedError:
+                here[(kl, kr)] = None
+    p = subprocess.run([sys.executable, "-c", REGION_SCRIPT, _json.dumps(c["pairs"][::-1])], capture_output=True, text=True,
+                       timeout=1200)
+    if p.returncode != 0:
+        return f"region script failed: {p.stderr[-300:]}"
+    fresh = _json.loads(p.stdout.strip().split("\n")[-1])
+    for kl, kr in c["pairs"]:
+        a, b = here[(kl, kr)], fresh[f"{kl},{kr}"]
+        if (a is None) != (b is None):
+            return f"region of ({gs[kl].name}, {gs[kr].name}) is defined in one process and not in the other"
+        if a is None:
+            continue
+        b = np.array(b, float).reshape(-1, 4)
+        ok = len(a) == len(b) and all(np.abs(b - x).max(axis=1).min() < 1e-9 for x in a) and \
+            all(np.abs(a - x).max(axis=1).min() < 1e-9 for x in b)
+        if not ok:
+            return (f"the orientation region of ({gs[kl].name}, {gs[kr].name}) built late in this process has {len(a)} bounding "
+                    f"planes that differ from the {len(b)} planes a fresh interpreter builds for the same pair")
+    return None
+
+
 def normals_check(ctx, c, outs):
     """every large-cell normal orix builds is a positive multiple of 1 + d or 1 - d for a distinguished point d
     (the hypothesis shape of theorem inside_unpruned_region_in_large_cell)"""
@@ -221,6 +275,7 @@ SITES = {
     "loop_model": sites.Site("loop_model", "corr", loop_check, loop_lines),
     "reduce": sites.Site("reduce", "prop", reduce_check),
     "reduce_bulk": sites.Site("reduce_bulk", "prop", reduce_bulk_check),
+    "region_order": sites.Site("region_order", "prop", region_order_check),
 }
 def _inv_improper(case):
     gs = groups()
@@ -327,6 +382,11 @@ def generate(ctx):
                 ctx.count("loop_model", ("l", kl, kr, tuple(q[0])), nontrivial=Gl.size * Gr.size > 1)
                 yield "loop_model", {"kl": kl, "kr": kr, "q": q[0]}
     ctx.sample({"site": "reduce", **c})
+    # order independence of the region construction (last: after every other pair of this run)
+    rp = [[int(rng.integers(nG)), int(rng.integers(nG))] for _ in range(24 if ctx.tier == "quick" else 120)]
+    rp += [[k, k] for k in rng.choice(nG, 6, replace=False).tolist()]
+    ctx.count("region_order", ("ro", repr(rp)), nontrivial=True)
+    yield "region_order", {"pairs": rp}
 
 
 def run(ctx, status):
